@@ -270,6 +270,7 @@ theorem wellFormed_safeAccess_partial : ∀ (d : ArrayData), WellFormed d → si
       simp only at hl2; obtain ⟨_, c, _, hc, _⟩ := hl2; subst hc
       obtain ⟨cv, rfl, hcv⟩ := one_child hlen
       exact slotVal_some_one_child _ c cv hl rfl hcv i hi (Or.inr (Or.inr ⟨kw, sg, v, rfl⟩))
+    | view u => simp at hty
     | struct f => simp at hty
     | ree a b => simp at hty
     | union a b => simp at hty
